@@ -16,7 +16,9 @@ import (
 	"verifharness/posgen"
 )
 
-// c18: board-in ++ [move n t_1 .. t_n] -> [heur.SEE(b, move, t_i) as 0/1 ...]
+// c18: board-in ++ [move k v_1 .. v_k n t_1 .. t_n] -> [heur.SEE(b, move, t_i) as 0/1 ...]
+// k = 0: the table of the source; k = 7 (configuration mode): the exported variable heur.PieceValues is
+// set to v_1 .. v_7 for the call and restored afterwards (the harness is single-threaded per process).
 // (see coq/Model/SeeStreams.v run_c18 / judge_c18).
 //
 // Positions: posgen G1/G2/G4 plus the dedicated battery generator below (stacked sliders and pawns on
@@ -36,10 +38,23 @@ const c18Timeout = "-2 -2 -2"
 func runC18(a hx.Args) string {
 	b, i := a.Board(0)
 	m := move.Move(a.U64(i))
-	n := a.Int(i + 1)
+	k := a.Int(i + 1)
+	if k != 0 && k != len(heur.PieceValues) {
+		return "badinput"
+	}
 	if c18Hung.Load() >= 3 {
 		return c18Timeout
 	}
+	if k != 0 {
+		// configuration mode: the piece values in force are part of the input
+		saved := heur.PieceValues
+		defer func() { heur.PieceValues = saved }()
+		for j := 0; j < k; j++ {
+			heur.PieceValues[j] = Score(a.I64(i + 2 + j))
+		}
+	}
+	i += 1 + k
+	n := a.Int(i + 1)
 	type res struct {
 		out string
 		pan bool
@@ -51,11 +66,23 @@ func runC18(a hx.Args) string {
 				ch <- res{pan: true}
 			}
 		}()
-		out := &hx.Nums{}
-		for k := 0; k < n; k++ {
-			out.B(heur.SEE(b, m, Score(a.I64(i+2+k))))
+		eval := func(b *board.Board) string {
+			out := &hx.Nums{}
+			for k := 0; k < n; k++ {
+				out.B(heur.SEE(b, m, Score(a.I64(i+2+k))))
+			}
+			return out.String()
 		}
-		ch <- res{out: out.String()}
+		out := eval(b)
+		// the same position parsed into a RE-USED board (board.ParseFEN is the documented allocation-free
+		// way to fill an existing board): the answers must not depend on what the board held before. A
+		// deviating answer is what gets reported.
+		if rb := c18Reparsed(b, m); rb != nil {
+			if out2 := eval(rb); out2 != out {
+				out = out2
+			}
+		}
+		ch <- res{out: out}
 	}()
 	select {
 	case r := <-ch:
@@ -69,11 +96,35 @@ func runC18(a hx.Args) string {
 	}
 }
 
+// c18Reparsed returns the position of b parsed (from its FEN) into a board that held another position
+// before: bare kings with an en-passant field naming the destination square of m when that is on the
+// 3rd/6th rank (else e3). Done for every pawn move onto the 3rd/6th rank and for every eighth other case;
+// nil when not applicable (the FEN printer/parser reject halfmove clocks above 100).
+func c18Reparsed(b *board.Board, m move.Move) *board.Board {
+	to := m.To()
+	onEpRank := to/8 == 2 || to/8 == 5
+	if !(onEpRank && b.SquaresToPiece[m.From()] == Pawn) && (uint64(b.Colors[White])*0x9e3779b97f4a7c15+uint64(m))>>61 != 0 {
+		return nil
+	}
+	sq := Square(20)
+	if onEpRank {
+		sq = to
+	}
+	var rb board.Board
+	if err := board.ParseFEN(&rb, []byte("4k3/8/8/8/8/8/8/4K3 w - "+sq.String()+" 0 1")); err != nil {
+		return nil
+	}
+	if err := board.ParseFEN(&rb, []byte(b.FEN())); err != nil {
+		return nil
+	}
+	return &rb
+}
+
 // c18Prefixes returns the running balances g0, g0-g1, g0-g1+g2, ... of a plain least-valuable-attacker
 // capture sequence (recomputed from scratch with Board.Attackers after every capture; no king rule).
 // It is only used to choose thresholds that straddle every achievable balance.
-func c18Prefixes(b *board.Board, m move.Move) (sums []int, recaptures int) {
-	pv := func(p Piece) int { return int(heur.PieceValues[p]) }
+func c18Prefixes(b *board.Board, m move.Move, tbl [7]int) (sums []int, recaptures int) {
+	pv := func(p Piece) int { return tbl[p] }
 	from, to := m.From(), m.To()
 	occ := (b.Colors[White] | b.Colors[Black]) &^ (BitBoard(1) << from)
 	csq := b.CaptureSq(m)
@@ -165,14 +216,59 @@ func c18SameKindTags(b *board.Board, m move.Move) []string {
 	return tags
 }
 
-func c18Thresholds(rng *hx.Rng, sums []int) []int {
+// c18FixedTables are alternative piece-value tables people actually try (index = piece code).
+var c18FixedTables = [][7]int{
+	{0, 100, 320, 330, 500, 900, 10000},
+	{0, 100, 300, 350, 500, 1000, 10000},
+	{0, 80, 300, 300, 500, 900, 10000},
+	{0, 100, 325, 325, 550, 1000, 10000},
+	{0, 82, 337, 365, 477, 1025, 12000},
+	{0, 124, 781, 825, 1276, 2538, 10000},
+	{0, 1, 3, 3, 5, 9, 200},
+}
+
+// c18Table picks the table in force for one case: the one of the source (75 %), a fixed alternative, or a
+// random monotone one (pawn < knight <= bishop < rook < queen < king, inside the no-wrap domain).
+func c18Table(rng *hx.Rng) ([7]int, string) {
+	var def [7]int
+	for i, v := range heur.PieceValues {
+		def[i] = int(v)
+	}
+	switch x := rng.Intn(100); {
+	case x < 75:
+		return def, "default"
+	case x < 87:
+		return c18FixedTables[rng.Intn(len(c18FixedTables))], "fixed"
+	default:
+		var t [7]int
+		t[Pawn] = int(rng.Range(40, 160))
+		t[Knight] = t[Pawn] + int(rng.Range(1, 350))
+		t[Bishop] = t[Knight]
+		if rng.Chance(0.7) {
+			t[Bishop] += int(rng.Range(1, 120))
+		}
+		t[Rook] = t[Bishop] + int(rng.Range(1, 400))
+		t[Queen] = t[Rook] + int(rng.Range(1, 800))
+		t[King] = []int{10000, 10000, 12000, 5000, int(rng.Range(3000, 12000))}[rng.Intn(5)]
+		return t, "random"
+	}
+}
+
+func c18TableDesc(tbl [7]int, kind string) string {
+	if kind == "default" {
+		return ""
+	}
+	return fmt.Sprintf(" PieceValues %v", tbl)
+}
+
+func c18Thresholds(rng *hx.Rng, sums []int, tbl [7]int) []int {
 	set := map[int]struct{}{}
 	lo, hi := sums[0], sums[0]
 	for _, s := range sums {
 		set[s-1], set[s], set[s+1] = struct{}{}, struct{}{}, struct{}{}
 		lo, hi = min(lo, s), max(hi, s)
 	}
-	q := int(heur.PieceValues[Queen])
+	q := tbl[Queen]
 	for _, t := range []int{lo - q - 1, lo - q, hi + q, hi + q + 1, 0} {
 		set[t] = struct{}{}
 	}
@@ -201,10 +297,17 @@ func c18Emit(b *board.Board, kind, desc string, focus int, rng *hx.Rng, emit fun
 		if focus >= 0 && int(m.To()) != focus && !rng.Chance(0.12) {
 			continue
 		}
-		sums, rec := c18Prefixes(b, m)
-		ts := c18Thresholds(rng, sums)
-		n := (&hx.Nums{}).U(uint64(m)).Int(len(ts)).Int(ts...)
-		tags := []string{kind}
+		tbl, tblKind := c18Table(rng)
+		sums, rec := c18Prefixes(b, m, tbl)
+		ts := c18Thresholds(rng, sums, tbl)
+		n := (&hx.Nums{}).U(uint64(m))
+		if tblKind == "default" {
+			n.Int(0)
+		} else {
+			n.Int(len(tbl)).Int(tbl[:]...)
+		}
+		n.Int(len(ts)).Int(ts...)
+		tags := []string{kind, "table=" + tblKind}
 		switch {
 		case b.IsEnPassant(m):
 			tags = append(tags, "en-passant")
@@ -233,11 +336,16 @@ func c18Emit(b *board.Board, kind, desc string, focus int, rng *hx.Rng, emit fun
 			tags = append(tags, "king-moves")
 		}
 		tags = append(tags, c18SameKindTags(b, m)...)
+		reused := ""
+		if c18Reparsed(b, m) != nil {
+			tags = append(tags, "also-on-reused-board")
+			reused = " [also evaluated after ParseFEN into a re-used board that held an en-passant square]"
+		}
 		emit(hx.Input{In: in + " " + n.String(),
-			Desc:       fmt.Sprintf("%s fen %s see %s thresholds %v  (%s)", kind, fen, m.String(), ts, desc),
+			Desc:       fmt.Sprintf("%s fen %s see %s thresholds %v%s  (%s)", kind, fen, m.String(), ts, c18TableDesc(tbl, tblKind)+reused, desc),
 			Tags:       tags,
 			NonTrivial: rec >= 1,
-			Key:        fen + " " + m.String()})
+			Key:        fen + " " + m.String() + c18TableDesc(tbl, tblKind)})
 		cnt++
 	}
 	return cnt
